@@ -9,6 +9,9 @@ package main
 import (
 	"fmt"
 	"go/ast"
+	"go/token"
+	"path/filepath"
+	"sort"
 	"strings"
 )
 
@@ -178,5 +181,123 @@ func (t *fltTr) cmpClosures(repo string) (string, error) {
 		fmt.Fprintf(&sb, "  (%s, %s)%s\n", flt_coqStr(n), flt_coqStr(t.text(fd.Type)+" :: "+t.stmtsText(fd.Body.List)), sep)
 	}
 	sb.WriteString("].\n\n")
+	return sb.String(), nil
+}
+
+// valueSources: where the values a comparison compares come from, beyond the closures themselves --
+//   - the Text of a capture: rulesRunner.nodeText / fileBytes / printNode (runner.go), every assignment to the nodeText
+//     field the closures call, and how renderMessage obtains the text it interpolates (the same function);
+//   - a constant written as a literal in the body of a group-local predicate function: expandMacro (irconv.go) re-creates
+//     its value from the spelling, `switch lit.Kind { ... }`.
+// RG.Filters.ValueSources.doc_value_sources is the audited copy the models node_text / macro_literal are transcribed from.
+func (t *fltTr) valueSources(repo string) (string, error) {
+	rf, err := flt_parseFile(t.fset, repo+"/ruleguard/runner.go")
+	if err != nil {
+		return "", err
+	}
+	cf, err := flt_parseFile(t.fset, repo+"/ruleguard/irconv/irconv.go")
+	if err != nil {
+		return "", err
+	}
+	type ent struct{ k, v string }
+	var ents []ent
+	for _, n := range []string{"nodeText", "fileBytes", "printNode"} {
+		fd := flt_findMethod(rf, n)
+		if fd == nil {
+			ents = append(ents, ent{"rulesRunner." + n, "(no such method)"})
+			continue
+		}
+		ents = append(ents, ent{"rulesRunner." + n, t.text(fd.Type) + " :: " + t.stmtsText(fd.Body.List)})
+	}
+	// every place that sets the nodeText field of the filter parameters, in any file of the package
+	var wiring []string
+	files, err := filepath.Glob(repo + "/ruleguard/*.go")
+	if err != nil {
+		return "", err
+	}
+	sort.Strings(files)
+	for _, fn := range files {
+		if strings.HasSuffix(fn, "_test.go") || strings.Contains(filepath.Base(fn), "verif_hooks") {
+			continue
+		}
+		f, err := flt_parseFile(t.fset, fn)
+		if err != nil {
+			return "", err
+		}
+		ast.Inspect(f, func(nd ast.Node) bool {
+			switch v := nd.(type) {
+			case *ast.AssignStmt:
+				for _, l := range v.Lhs {
+					if se, ok := l.(*ast.SelectorExpr); ok && se.Sel.Name == "nodeText" {
+						wiring = append(wiring, filepath.Base(fn)+": "+t.text(v))
+					}
+				}
+			case *ast.KeyValueExpr:
+				if id, ok := v.Key.(*ast.Ident); ok && id.Name == "nodeText" {
+					wiring = append(wiring, filepath.Base(fn)+": "+t.text(v))
+				}
+			}
+			return true
+		})
+	}
+	ents = append(ents, ent{"filterParams.nodeText", strings.Join(wiring, " ;; ")})
+	rm := flt_findMethod(rf, "renderMessage")
+	if rm == nil {
+		return "", fmt.Errorf("rulesRunner.renderMessage not found")
+	}
+	var texts []string
+	ast.Inspect(rm.Body, func(nd ast.Node) bool {
+		if as, ok := nd.(*ast.AssignStmt); ok && len(as.Lhs) == 1 && t.text(as.Lhs[0]) == "text" {
+			texts = append(texts, t.text(as))
+		}
+		return true
+	})
+	ents = append(ents, ent{"renderMessage.text", strings.Join(texts, " ;; ")})
+	em := flt_findMethod(cf, "expandMacro")
+	if em == nil {
+		return "", fmt.Errorf("converter.expandMacro not found")
+	}
+	var lits []string
+	ast.Inspect(em.Body, func(nd ast.Node) bool {
+		if is, ok := nd.(*ast.IfStmt); ok && strings.HasPrefix(t.text(is.Cond), "ok") && is.Init != nil && t.text(is.Init) == "lit, ok := cur.Node().(*ast.BasicLit)" {
+			lits = append(lits, t.stmtsText(is.Body.List))
+		}
+		return true
+	})
+	if len(lits) != 1 {
+		return "", t.errf(em, "expandMacro: expected one `if lit, ok := cur.Node().(*ast.BasicLit); ok { ... }`, found %d", len(lits))
+	}
+	ents = append(ents, ent{"expandMacro.literals", lits[0]})
+	// the base and the size the integer literals are read with
+	base, bits := "(-1)", "(-1)"
+	ast.Inspect(em.Body, func(nd ast.Node) bool {
+		cc, ok := nd.(*ast.CaseClause)
+		if !ok || len(cc.List) != 1 || t.text(cc.List[0]) != "token.INT" {
+			return true
+		}
+		ast.Inspect(cc, func(x ast.Node) bool {
+			if ce, ok := x.(*ast.CallExpr); ok && t.text(ce.Fun) == "strconv.ParseInt" && len(ce.Args) == 3 && t.text(ce.Args[0]) == "lit.Value" {
+				if b, ok := ce.Args[1].(*ast.BasicLit); ok && b.Kind == token.INT {
+					base = b.Value
+				}
+				if b, ok := ce.Args[2].(*ast.BasicLit); ok && b.Kind == token.INT {
+					bits = b.Value
+				}
+			}
+			return true
+		})
+		return false
+	})
+	var sb strings.Builder
+	sb.WriteString("(* runner.go / irconv.go: where the Text of a capture and the value of a literal in a local predicate function come from *)\nDefinition gen_value_sources : list (string * string) := [\n")
+	for i, e := range ents {
+		sep := ";"
+		if i == len(ents)-1 {
+			sep = ""
+		}
+		fmt.Fprintf(&sb, "  (%s, %s)%s\n", flt_coqStr(e.k), flt_coqStr(e.v), sep)
+	}
+	sb.WriteString("].\n")
+	fmt.Fprintf(&sb, "(* irconv.go: expandMacro reads an integer literal with strconv.ParseInt(lit.Value, base, bits) *)\nDefinition gen_macro_int_base : Z := %s%%Z.\nDefinition gen_macro_int_bits : Z := %s%%Z.\n\n", base, bits)
 	return sb.String(), nil
 }
